@@ -173,6 +173,416 @@ def task_rename(f):
 
 
 # ------------------------------------------------------------------------------
+# what text a script builder produces: value flow, not statement shapes
+#
+# A builder's text is a tree: a sequence of items, `('loop', seq)` for the part
+# repeated per iteration and `('alt', [seq, ..])` for alternatives.  Items are
+# string constants, format strings with their values, calls of other builders
+# and opaque expressions.  It does not matter whether the text is put together
+# by `x += ..`, `x = x + ..`, list.append / ''.join, one `+` expression, a
+# comprehension, or a table of rows rendered in a loop.
+#
+FMT_RE = re.compile(r'%(?:\([^)]*\))?[-#0 +]*\d*(?:\.\d+)?[sdrfi]')
+STR_PASS = {'rstrip', 'lstrip', 'strip', 'encode', 'decode', 'expandtabs'}
+
+
+class Item:
+    __slots__ = ('kind', 'node', 'text', 'vals')
+
+    def __init__(self, kind, node, text=None, vals=None):
+        self.kind = kind            # const fmt call opaque
+        self.node = node
+        self.text = text            # constant text / format string
+        self.vals = vals or []      # value expressions of the placeholders
+
+    def __repr__(self):
+        return '<%s %s>' % (self.kind, short(self.node, 40)
+                            if self.text is None else repr(self.text)[:50])
+
+
+def _is_prefix(old, new):
+    return len(new) >= len(old) and all(a is b for a, b in zip(old, new))
+
+
+class TextEval:
+
+    def __init__(self, prog, f, K=None):
+        self.prog, self.f, self.K = prog, f, K or f.cls
+        self.returns = []           # [seq] one per return statement
+        self.sinks = []             # [seq] text handed to a file write
+        self.tables = self._tables()
+        self.subst = {}
+        self.ldefs = local_defs(f.node)
+        self.block(f.node.body, {})
+
+    # -- tables: name -> [tuple rows] (list literal of tuples + appends)
+    def _tables(self):
+        out = {}
+        for n in walk(self.f.node):
+            if isinstance(n, ast.Assign) and len(n.targets) == 1 and \
+                    isinstance(n.targets[0], ast.Name) and \
+                    isinstance(n.value, (ast.List, ast.Tuple)) and \
+                    n.value.elts and all(isinstance(e, ast.Tuple)
+                                         for e in n.value.elts):
+                out.setdefault(n.targets[0].id, []).extend(n.value.elts)
+        for n in walk(self.f.node):
+            if isinstance(n, ast.Call) and isinstance(n.func, ast.Attribute) \
+                    and n.func.attr == 'append' and \
+                    isinstance(n.func.value, ast.Name) and \
+                    n.func.value.id in out and len(n.args) == 1 and \
+                    isinstance(n.args[0], ast.Tuple):
+                out[n.func.value.id].append(n.args[0])
+        return out
+
+    # -- partial evaluation of format expressions
+    def pfmt(self, e):
+        """(format text, [value exprs]) of a string-valued expression whose
+        text is known up to placeholders; None otherwise"""
+        if isinstance(e, ast.Name) and e.id in self.subst:
+            return self.pfmt(self.subst[e.id])
+        if isinstance(e, ast.Constant) and isinstance(e.value, str):
+            return e.value.replace('%', '%%'), []
+        if isinstance(e, ast.Name) and self._local_const(e.id) is not None:
+            return self._local_const(e.id).replace('%', '%%'), []
+        if isinstance(e, (ast.Attribute, ast.Name)):
+            v = self.prog.fold(self.f.module, e, self.K)
+            if isinstance(v, str):
+                return v.replace('%', '%%'), []
+            return None
+        if isinstance(e, ast.JoinedStr):
+            text, vals = '', []
+            for v in e.values:
+                if isinstance(v, ast.Constant):
+                    text += str(v.value).replace('%', '%%')
+                else:
+                    sub = self.pfmt(v.value) if v.format_spec is None else None
+                    if sub and not sub[1]:
+                        text += sub[0]
+                    else:
+                        text += '%s'
+                        vals.append(v.value)
+            return text, vals
+        if isinstance(e, ast.BinOp) and isinstance(e.op, ast.Add):
+            a, b = self.pfmt(e.left), self.pfmt(e.right)
+            if a and b:
+                return a[0] + b[0], a[1] + b[1]
+            return None
+        if isinstance(e, ast.BinOp) and isinstance(e.op, ast.Mod):
+            left = self.pfmt(e.left)
+            if left is None or left[1]:
+                return None
+            fmt = left[0].replace('%%', '\0')
+            # `left` is fully known text: its own %% were escaped above, so
+            # undo one level to get at the conversions of the original string
+            raw = self._raw(e.left)
+            if raw is None:
+                return None
+            args = e.right.elts if isinstance(e.right, ast.Tuple) \
+                else [e.right]
+            convs = list(FMT_RE.finditer(raw))
+            if len(convs) != len(args):
+                return None
+            text, vals, pos = '', [], 0
+            for m, a in zip(convs, args):
+                text += raw[pos:m.start()].replace('%%', '\1').replace(
+                    '%', '%%').replace('\1', '%%')
+                pos = m.end()
+                sub = self.pfmt(a) if m.group(0) == '%s' else None
+                if sub is not None:
+                    text += sub[0]
+                    vals += sub[1]
+                else:
+                    text += m.group(0)
+                    vals.append(self.subst.get(a.id, a)
+                                if isinstance(a, ast.Name) else a)
+            text += raw[pos:].replace('%%', '\1').replace('%', '%%').replace(
+                '\1', '%%')
+            return text, vals
+        return None
+
+    def _local_const(self, name):
+        vals = self.ldefs.get(name, [])
+        if len(vals) == 1 and isinstance(vals[0], ast.Constant) and \
+                isinstance(vals[0].value, str) and \
+                name not in self.f.params:
+            return vals[0].value
+        return None
+
+    def _raw(self, e):
+        """the literal value of a constant-text expression"""
+        if isinstance(e, ast.Name) and e.id in self.subst:
+            return self._raw(self.subst[e.id])
+        if isinstance(e, ast.Constant) and isinstance(e.value, str):
+            return e.value
+        if isinstance(e, ast.Name) and self._local_const(e.id) is not None:
+            return self._local_const(e.id)
+        if isinstance(e, (ast.Attribute, ast.Name)):
+            v = self.prog.fold(self.f.module, e, self.K)
+            return v if isinstance(v, str) else None
+        if isinstance(e, ast.BinOp) and isinstance(e.op, ast.Add):
+            a, b = self._raw(e.left), self._raw(e.right)
+            return a + b if a is not None and b is not None else None
+        return None
+
+    # -- expressions
+    def seq(self, e, env):
+        if isinstance(e, ast.Name) and e.id in self.subst:
+            return self.seq(self.subst[e.id], env)
+        if isinstance(e, ast.Constant):
+            if isinstance(e.value, str):
+                return [Item('const', e, e.value)] if e.value else []
+            return [Item('opaque', e)]
+        if isinstance(e, ast.Name):
+            if e.id in env:
+                return list(env[e.id])
+            return [Item('opaque', e)]
+        if isinstance(e, ast.BinOp) and isinstance(e.op, ast.Add):
+            return self.seq(e.left, env) + self.seq(e.right, env)
+        if isinstance(e, (ast.BinOp, ast.JoinedStr)):
+            r = self.pfmt(e)
+            if r is not None:
+                kind = 'fmt' if r[1] else 'const'
+                return [Item(kind, e, r[0] if r[1] else r[0].replace('%%', '%'),
+                             r[1])]
+            return [Item('opaque', e)]
+        if isinstance(e, (ast.List, ast.Tuple)) and not any(
+                isinstance(x, ast.Tuple) for x in e.elts):
+            out = []
+            for x in e.elts:
+                out += self.seq(x, env)
+            return out
+        if isinstance(e, ast.IfExp):
+            return [('alt', [self.seq(e.body, env), self.seq(e.orelse, env)])]
+        if isinstance(e, (ast.ListComp, ast.GeneratorExp)):
+            return self.comp(e, env)
+        if isinstance(e, ast.Call):
+            f = e.func
+            if isinstance(f, ast.Attribute) and f.attr == 'join' and \
+                    len(e.args) == 1:
+                return self.seq(e.args[0], env)
+            if isinstance(f, ast.Attribute) and f.attr in STR_PASS:
+                return self.seq(f.value, env)
+            if isinstance(f, ast.Name) and f.id in ('str', 'list', 'tuple') \
+                    and len(e.args) == 1:
+                return self.seq(e.args[0], env)
+            if call_name(e).startswith('self.'):
+                return [Item('call', e)]
+            return [Item('opaque', e)]
+        if isinstance(e, ast.Attribute):
+            r = self.pfmt(e)
+            if r is not None:
+                return [Item('const', e, r[0].replace('%%', '%'))]
+        return [Item('opaque', e)]
+
+    def comp(self, e, env):
+        if len(e.generators) != 1:
+            return [('loop', [Item('opaque', e)])]
+        g = e.generators[0]
+        rows = self.rows_of(g.iter, g.target)
+        if rows is not None:
+            out = []
+            for sub in rows:
+                old = self.subst
+                self.subst = dict(old, **sub)
+                out += self.seq(e.elt, env)
+                self.subst = old
+            return out
+        return [('loop', self.seq(e.elt, env))]
+
+    def rows_of(self, it, target):
+        """[{target name: row element}] if `it` is a table of this function"""
+        if not (isinstance(it, ast.Name) and it.id in self.tables and
+                isinstance(target, (ast.Tuple, ast.List)) and
+                all(isinstance(t, ast.Name) for t in target.elts)):
+            return None
+        names = [t.id for t in target.elts]
+        rows = [r for r in self.tables[it.id] if len(r.elts) == len(names)]
+        if len(rows) != len(self.tables[it.id]):
+            return None
+        return [dict(zip(names, r.elts)) for r in rows]
+
+    # -- statements; returns True if the block always leaves the function
+    def block(self, stmts, env):
+        for s in stmts:
+            if self.stmt(s, env):
+                return True
+        return False
+
+    def stmt(self, s, env):
+        if isinstance(s, ast.Return):
+            if s.value is not None:
+                self.returns.append(self.seq(s.value, env))
+            return True
+        if isinstance(s, ast.Raise):
+            return True
+        if isinstance(s, ast.Assign):
+            if len(s.targets) == 1 and isinstance(s.targets[0], ast.Name):
+                env[s.targets[0].id] = self.seq(s.value, env)
+            else:
+                for t in s.targets:
+                    for x in stores_in_target(t):
+                        env.pop(x, None)
+            self.calls_of(s.value, env)
+            return False
+        if isinstance(s, ast.AnnAssign) and isinstance(s.target, ast.Name) \
+                and s.value is not None:
+            env[s.target.id] = self.seq(s.value, env)
+            return False
+        if isinstance(s, ast.AugAssign):
+            if isinstance(s.target, ast.Name) and isinstance(s.op, ast.Add):
+                n = s.target.id
+                env[n] = env.get(n, [Item('opaque', s.target)]) + \
+                    self.seq(s.value, env)
+            elif isinstance(s.target, ast.Name):
+                env[s.target.id] = [Item('opaque', s)]
+            return False
+        if isinstance(s, ast.Expr):
+            self.calls_of(s.value, env)
+            return False
+        if isinstance(s, ast.If):
+            e1, e2 = dict(env), dict(env)
+            t1 = self.block(s.body, e1)
+            t2 = self.block(s.orelse, e2)
+            if t1 and t2:
+                return True
+            if t1 or t2:
+                src = e2 if t1 else e1
+                env.clear()
+                env.update(src)
+                return False
+            for n in set(e1) | set(e2):
+                a, b = e1.get(n), e2.get(n)
+                if a is None or b is None:
+                    env[n] = a if a is not None else b
+                elif len(a) == len(b) and _is_prefix(a, b):
+                    env[n] = a
+                else:
+                    k = 0
+                    while k < len(a) and k < len(b) and a[k] is b[k]:
+                        k += 1
+                    env[n] = a[:k] + [('alt', [a[k:], b[k:]])]
+            return False
+        if isinstance(s, (ast.For, ast.While)):
+            rows = self.rows_of(s.iter, s.target) \
+                if isinstance(s, ast.For) else None
+            if rows is not None:
+                for sub in rows:
+                    old = self.subst
+                    self.subst = dict(old, **sub)
+                    self.block(s.body, env)
+                    self.subst = old
+                self.block(s.orelse, env)
+                return False
+            eb = dict(env)
+            self.block(s.body, eb)
+            for n, new in eb.items():
+                old = env.get(n)
+                if old is not None and _is_prefix(old, new):
+                    if len(new) > len(old):
+                        env[n] = old + [('loop', new[len(old):])]
+                else:
+                    env[n] = [('loop', new)]
+            return self.block(s.orelse, env) and False
+        if isinstance(s, (ast.With, ast.AsyncWith)):
+            return self.block(s.body, env)
+        if isinstance(s, ast.Try):
+            t = self.block(s.body, env)
+            for h in s.handlers:
+                self.block(h.body, dict(env))
+            self.block(s.orelse, env)
+            self.block(s.finalbody, env)
+            return False
+        return False
+
+    def calls_of(self, e, env):
+        """list accumulation and file writes among the calls of expression e"""
+        for c in calls_in(e):
+            fn = c.func
+            if isinstance(fn, ast.Attribute) and isinstance(fn.value, ast.Name) \
+                    and fn.value.id in env and c.args:
+                n = fn.value.id
+                if fn.attr == 'append':
+                    env[n] = env[n] + self.seq(c.args[0], env)
+                elif fn.attr == 'extend':
+                    env[n] = env[n] + self.seq(c.args[0], env)
+                elif fn.attr == 'insert':
+                    env[n] = [Item('opaque', c)]
+            if isinstance(fn, ast.Attribute) and fn.attr in ('write',
+                                                             'writelines') \
+                    and c.args:
+                self.sinks.append(self.seq(c.args[-1], env))
+            else:
+                callee = self.prog.resolve_call(self.f, c, self.K)
+                if callee is not None and callee is not self.f and \
+                        callee.cls is not None:
+                    i = written_param(callee)
+                    if i is not None:
+                        ps = [p for p in callee.params
+                              if p not in ('self', 'cls')]
+                        a = kwarg(c, ps[i], i)
+                        if a is not None:
+                            self.sinks.append(self.seq(a, env))
+
+    # -- results
+    def script(self):
+        """the text this function writes (if it writes one) or returns"""
+        if self.sinks:
+            return self.sinks[-1] if len(self.sinks) == 1 else \
+                [('alt', self.sinks)]
+        rets = [r for r in self.returns if r]
+        if not rets:
+            return []
+        return rets[0] if len(rets) == 1 else [('alt', rets)]
+
+    def items(self, seq=None):
+        """[(Item, path)] in text order"""
+        out = []
+
+        def rec(sq, path):
+            for i, x in enumerate(sq):
+                if isinstance(x, Item):
+                    out.append((x, path + (i,)))
+                elif x[0] == 'loop':
+                    rec(x[1], path + (i, 'loop'))
+                else:
+                    for k, br in enumerate(x[1]):
+                        rec(br, path + (i, ('alt', k)))
+        rec(self.script() if seq is None else seq, ())
+        return out
+
+
+def written_param(f):
+    """index (among the non-self parameters) of the parameter of f whose
+    value f writes to a file, or None"""
+    ps = [p for p in f.params if p not in ('self', 'cls')]
+    for c in calls_in(f.node):
+        if isinstance(c.func, ast.Attribute) and c.func.attr in (
+                'write', 'writelines') and c.args:
+            r = c.args[-1]
+            while isinstance(r, ast.Call) and \
+                    isinstance(r.func, ast.Attribute):
+                r = r.func.value
+            if isinstance(r, ast.Name) and r.id in ps:
+                return ps.index(r.id)
+    return None
+
+
+def before(pa, pb):
+    """True: a precedes b; False: b precedes a; None: exclusive / same"""
+    for x, y in zip(pa, pb):
+        if x == y:
+            continue
+        if isinstance(x, int) and isinstance(y, int):
+            return x < y
+        return None
+    return None
+
+
+def in_loop(path):
+    return 'loop' in path
+
+
+# ------------------------------------------------------------------------------
 # R10.1  export sources
 #
 EXPORT_RE = re.compile(r'export\s+(RP_[A-Z0-9_]+)=')
@@ -204,55 +614,31 @@ INIT_ATTRS = ('pid', 'sid', 'resource', 'rsbox', 'ssbox', 'psbox')
 KNOWN_PREFIX = ('task/', 'self/_reg/', 'self/session/')
 
 
-def export_lines(f):
-    """[(RP name, [value exprs], statement node)] for the string constants of f
-    which contain `export RP_X=`"""
+def export_lines(prog, f):
+    """[(RP name, [value exprs], node)] for the `export RP_X=` lines in the text
+    which f returns - however that text is put together"""
+    T = TextEval(prog, f)
     out = []
-    handled = set()
-    for n in walk(f.node):
-        if isinstance(n, ast.BinOp) and isinstance(n.op, ast.Mod) and \
-                isinstance(n.left, ast.Constant) and \
-                isinstance(n.left.value, str):
-            handled.add(id(n.left))
-            m = EXPORT_RE.findall(n.left.value)
-            if not m:
-                continue
+    for it, path in T.items():
+        if it.text is None:
+            continue
+        lines = it.text.split('\n')
+        n_exp = sum(len(EXPORT_RE.findall(l)) for l in lines)
+        if not n_exp:
+            continue
+        # values per line: placeholders are counted line by line
+        k = 0
+        for l in lines:
+            n = len(FMT_RE.findall(l.replace('%%', '')))
+            m = EXPORT_RE.findall(l)
             if len(m) > 1:
-                raise AnalysisError('UNRECOGNISED-IDIOM %s: several exports in '
-                                    'one format string' % f.where)
-            vals = n.right.elts if isinstance(n.right, ast.Tuple) \
-                else [n.right]
-            out.append((m[0], list(vals), n))
-        elif isinstance(n, ast.JoinedStr):
-            text = ''.join(v.value for v in n.values
-                           if isinstance(v, ast.Constant))
-            for v in n.values:
-                handled.add(id(v))
-            m = EXPORT_RE.findall(text)
-            if not m:
-                continue
-            if len(m) > 1:
-                raise AnalysisError('UNRECOGNISED-IDIOM %s: several exports in '
-                                    'one f-string' % f.where)
-            out.append((m[0], [v.value for v in n.values
-                               if isinstance(v, ast.FormattedValue)], n))
-        elif isinstance(n, ast.Call) and isinstance(n.func, ast.Attribute) \
-                and n.func.attr == 'format' and \
-                isinstance(n.func.value, ast.Constant) and \
-                isinstance(n.func.value.value, str):
-            handled.add(id(n.func.value))
-            m = EXPORT_RE.findall(n.func.value.value)
-            if len(m) == 1:
-                out.append((m[0], list(n.args) +
-                            [k.value for k in n.keywords], n))
-            elif m:
-                raise AnalysisError('UNRECOGNISED-IDIOM %s: several exports in '
-                                    'one format string' % f.where)
-    for n in walk(f.node):
-        if isinstance(n, ast.Constant) and isinstance(n.value, str) and \
-                id(n) not in handled:
-            for name in EXPORT_RE.findall(n.value):
-                out.append((name, [], n))
+                raise AnalysisError('UNRECOGNISED-IDIOM %s: several exports '
+                                    'in one line' % f.where)
+            if m:
+                out.append((m[0], list(it.vals[k:k + n]), it.node))
+            k += n
+    if not T.returns:
+        raise AnalysisError('UNRECOGNISED-IDIOM %s: returns no text' % f.where)
     return out
 
 
@@ -285,7 +671,7 @@ def r10_1(prog, rep, rid='R10.1'):
     for v in RP_ENV.values():
         universe |= v
     seen = {}
-    for name, vals, node in export_lines(f):
+    for name, vals, node in export_lines(prog, f):
         if name not in RP_ENV:
             rep.info(rid, f, 'export %s is not in the checker\'s table' % name,
                      f.loc(node))
@@ -324,7 +710,7 @@ def r10_1(prog, rep, rid='R10.1'):
     ps = [p for p in fr.params if p != 'self']
     Lr = Leaves(fr.node)
     n = 0
-    for name, vals, node in export_lines(fr):
+    for name, vals, node in export_lines(prog, fr):
         if name != 'RP_RANKS':
             continue
         n += 1
@@ -630,6 +1016,20 @@ class Taint:
             if attr == 'copy':
                 return recv
             return recv | args
+        if name == 'map' and len(c.args) >= 2:
+            # map(fn, xs): fn applied to every element
+            t = set()
+            for a in c.args[1:]:
+                ta = self.ev(f, a, env)
+                t |= self.elem(ta) if ta & VIEWS else ta
+            fn = c.args[0]
+            if is_sanitizer(dotted(fn)):
+                if 'raw' in t:
+                    t = (t - {'raw'}) | {'q'}
+                return t
+            if isinstance(fn, ast.Name) and fn.id in NUM_FUNCS:
+                return set()
+            return t
         if name in ('str', 'repr', 'format', 'ascii'):
             return self.stringify(args)
         if name in NUM_FUNCS:
@@ -734,102 +1134,9 @@ def r10_4(prog, rep, rid='R10.4'):
 # ------------------------------------------------------------------------------
 # R10.3  section order, redirect, exit code, per-rank case
 #
-class Pieces:
-    """the parts a script builder concatenates, in control-flow terms: the
-    accumulator is the name whose value is written / returned; a piece is the
-    right-hand side of `acc = X`, `acc += X`, `acc = acc + X`"""
-
-    def __init__(self, f):
-        self.f = f
-        self.g = cfg_of(f)
-        self.smap = I.stmt_node_map(self.g)
-        self.acc, self.sink = self._acc()
-        self.items = []                    # (cfg node, value expr)
-        for n in self.g.stmt_nodes():
-            if n.kind != 'stmt':
-                continue
-            a = n.ast
-            if isinstance(a, ast.AugAssign) and isinstance(a.target, ast.Name) \
-                    and a.target.id == self.acc:
-                if not isinstance(a.op, ast.Add):
-                    raise AnalysisError('UNRECOGNISED-IDIOM %s: `%s`'
-                                        % (f.where, short(a, 50)))
-                self.items.append((n, a.value))
-            elif isinstance(a, ast.Assign) and len(a.targets) == 1 and \
-                    isinstance(a.targets[0], ast.Name) and \
-                    a.targets[0].id == self.acc:
-                v = a.value
-                if isinstance(v, ast.BinOp) and isinstance(v.op, ast.Add):
-                    parts = []
-                    e = v
-                    while isinstance(e, ast.BinOp) and isinstance(e.op, ast.Add):
-                        parts.append(e.right)
-                        e = e.left
-                    parts.append(e)
-                    parts.reverse()
-                    names = [isinstance(x, ast.Name) and x.id == self.acc
-                             for x in parts]
-                    if any(names[1:]):
-                        raise AnalysisError(
-                            'UNRECOGNISED-IDIOM %s: `%s` prepends to the '
-                            'script text' % (f.where, short(a, 50)))
-                    for x in parts[1:] if names[0] else parts:
-                        self.items.append((n, x))
-                else:
-                    self.items.append((n, v))
-        self.ids = {n.id for n, _ in self.items}
-
-    def _acc(self):
-        f, g = self.f, self.g
-        for c in calls_in(f.node):
-            if isinstance(c.func, ast.Attribute) and c.func.attr == 'write' \
-                    and c.args:
-                r = root_name(c.args[-1]) if not isinstance(
-                    c.args[-1], ast.Call) else root_name(c.args[-1].func)
-                n = self.smap.get(id(c))
-                if r and n is not None:
-                    return r, n
-        rets = [n for n in g.stmt_nodes() if n.kind == 'stmt' and
-                isinstance(n.ast, ast.Return) and
-                isinstance(n.ast.value, ast.Name)]
-        names = {n.ast.value.id for n in rets}
-        if len(names) == 1:
-            return names.pop(), rets[-1]
-        raise AnalysisError('UNRECOGNISED-IDIOM %s: cannot tell which variable '
-                            'holds the script text' % f.where)
-
-    def find(self, pred):
-        return [(n, v) for n, v in self.items if pred(v)]
-
-    def next_of(self, node):
-        """pieces which can directly follow `node` (no other piece between)"""
-        g = self.g
-        starts = [e.dst for e in g.succ[node.id] if e.label != 'exc']
-        seen, out = set(), []
-        todo = list(starts)
-        while todo:
-            i = todo.pop()
-            if i in seen:
-                continue
-            seen.add(i)
-            if i in self.ids:
-                out.append(i)
-                continue
-            for e in g.succ[i]:
-                if e.label != 'exc':
-                    todo.append(e.dst)
-        return [(n, v) for n, v in self.items if n.id in out]
-
-    def after_in_stmt(self, node, value):
-        """pieces of the same statement after `value` (acc = acc + a + b)"""
-        same = [v for n, v in self.items if n is node]
-        i = [k for k, v in enumerate(same) if v is value][0]
-        return same[i + 1:]
-
-
-def self_call(v, name):
-    """the call self.<name>(..) inside piece v, or None"""
-    for c in calls_in(v):
+def self_call(node, name):
+    """the call self.<name>(..) inside expression node, or None"""
+    for c in calls_in(node):
         if call_name(c) == 'self.' + name:
             return c
     return None
@@ -846,29 +1153,45 @@ def sig_of(prog, f, call):
     return e.value if isinstance(e, ast.Constant) else None
 
 
-def const_text(v):
-    """text of a constant piece / of the format string of a `%` piece"""
-    if isinstance(v, ast.Constant) and isinstance(v.value, str):
-        return v.value
-    if isinstance(v, ast.BinOp) and isinstance(v.op, ast.Mod) and \
-            isinstance(v.left, ast.Constant) and \
-            isinstance(v.left.value, str):
-        return v.left.value
-    if isinstance(v, ast.JoinedStr):
-        return ''.join(x.value if isinstance(x, ast.Constant) else '%s'
-                       for x in v.values)
-    return None
+def text_of(it):
+    return it.text or ''
+
+
+def has_call(name, sig=None, prog=None, f=None):
+    def pred(it):
+        c = self_call(it.node, name)
+        if c is None:
+            return False
+        if sig is None:
+            return True
+        return sig_of(prog, f, c) == sig
+    return pred
+
+
+def starts(prefix, strip=False):
+    def pred(it):
+        t = text_of(it)
+        return (t.lstrip() if strip else t).startswith(prefix)
+    return pred
+
+
+def script_items(prog, f):
+    T = TextEval(prog, f)
+    its = T.items()
+    if not its:
+        raise AnalysisError('UNRECOGNISED-IDIOM %s: cannot tell which text '
+                            'this function writes or returns' % f.where)
+    return T, its
 
 
 def sections(prog, rep, rid, f, spec, what):
-    """spec: [(label, predicate on piece value)] in the required order"""
-    P = Pieces(f)
-    g = P.g
+    """spec: [(label, predicate on Item)] in the required order"""
+    T, its = script_items(prog, f)
     rep.saw(f)
-    rep.stat('R10.3 pieces', len(P.items))
+    rep.stat('R10.3 pieces', len(its))
     found = []
     for label, pred in spec:
-        hits = P.find(pred)
+        hits = [(it, pa) for it, pa in its if pred(it)]
         rep.check(bool(hits), rid, f,
                   '%s: section `%s` is part of the script text' % (what, label),
                   construct='%s:%s:missing' % (what, label),
@@ -882,24 +1205,16 @@ def sections(prog, rep, rid, f, spec, what):
     for (la, A), (lb, B) in zip(found, found[1:]):
         if not A or not B:
             continue
-        okay = True
-        for na, va in A:
-            for nb, vb in B:
-                if na is nb:
-                    same = [v for n, v in P.items if n is na]
-                    if same.index(vb) < same.index(va):
-                        okay = False
-                elif na.id in g.reachable(nb.id) or \
-                        nb.id not in g.reachable(na.id):
-                    okay = False
+        okay = all(before(pa, pb) is not False
+                   for _, pa in A for _, pb in B)
         rep.check(okay, rid, f, '%s: `%s` comes before `%s`' % (what, la, lb),
                   construct='%s:%s<%s' % (what, la, lb),
-                  message='in %s the section `%s` can be added to the %s '
+                  message='in %s the section `%s` is added to the %s '
                   'before `%s`: the script runs them in the wrong order'
-                  % (f.qual, lb, what, la), loc=f.loc(B[0][0].ast),
+                  % (f.qual, lb, what, la), loc=f.loc(B[0][0].node),
                   history=ORDER_HISTORY.get((la, lb), 'any task: `%s` runs '
                                             'before `%s`' % (lb, la)))
-    return P
+    return T, its
 
 
 ORDER_HISTORY = {
@@ -918,25 +1233,14 @@ ORDER_HISTORY = {
 }
 
 
-def has_call(name, sig=None, prog=None, f=None):
-    def pred(v):
-        c = self_call(v, name)
-        if c is None:
-            return False
-        if sig is None:
-            return True
-        return sig_of(prog, f, c) == sig
-    return pred
-
-
 def r10_3(prog, rep, rid='R10.3'):
     rep.rule(rid, 'exec script: rp env, rank ids, task env, pre_exec, '
              'executable, post_exec in this order; launch script: rp env, cd '
              'to the sandbox, launcher env, pre_launch, launch command with '
              'stdout/stderr redirect, post_launch; exit codes are taken right '
              'after the command; the per-rank case covers range(n_ranks)',
-             minimum=46)
-    # (50 today; a section which is dropped is reported missing and takes the
+             minimum=44)
+    # (49 today; a section which is dropped is reported missing and takes the
     # two order obligations with its neighbours with it - hence the slack)
     # ---- exec script
     f = prog.method(EXE[0], EXE[1], '_create_exec_script')
@@ -946,8 +1250,7 @@ def r10_3(prog, rep, rid='R10.3'):
             ('pre_exec',  has_call('_get_prep_exec', 'pre_exec', prog, f)),
             ('exec',      has_call('_get_exec')),
             ('post_exec', has_call('_get_prep_exec', 'post_exec', prog, f)),
-            ('exit',      lambda v: (const_text(v) or '').startswith(
-                'exit $RP_RET'))]
+            ('exit',      starts('exit $RP_RET'))]
     sections(prog, rep, rid, f, spec, 'exec script')
     Lf = Leaves(f.node, rename=task_rename(f))
     for c in calls_in(f.node):
@@ -967,33 +1270,29 @@ def r10_3(prog, rep, rid='R10.3'):
     # ---- launch script
     f = prog.method(EXE[0], EXE[1], '_create_launch_script')
     spec = [('rp env',       has_call('_get_rp_env')),
-            ('cd sandbox',   lambda v: (const_text(v) or '').lstrip()
-                .startswith('cd ')),
+            ('cd sandbox',   starts('cd ', strip=True)),
             ('launcher env', has_call('_get_launch_env')),
             ('pre_launch',   has_call('_get_prep_launch', 'pre_launch', prog, f)),
             ('launch',       has_call('_get_launch')),
             ('post_launch',  has_call('_get_prep_launch', 'post_launch', prog,
                                       f)),
-            ('exit',         lambda v: (const_text(v) or '').startswith(
-                'exit $RP_RET'))]
-    P = sections(prog, rep, rid, f, spec, 'launch script')
+            ('exit',         starts('exit $RP_RET'))]
+    T, its = sections(prog, rep, rid, f, spec, 'launch script')
     Lf = Leaves(f.node, rename=task_rename(f))
-    for n, v in P.find(lambda v: (const_text(v) or '').lstrip()
-                       .startswith('cd ')):
-        txt = const_text(v).strip()
-        okc = txt.startswith('cd $RP_TASK_SANDBOX') and \
-            re.match(r'^cd \$RP_TASK_SANDBOX/?\s*($|\|\||&&|;)', txt)
-        if not okc and not isinstance(v, ast.Constant):
-            vals = v.right.elts if isinstance(v.right, ast.Tuple) \
-                else [v.right] if isinstance(v, ast.BinOp) else []
+    for it, pa in its:
+        if not starts('cd ', strip=True)(it):
+            continue
+        txt = it.text.strip()
+        okc = bool(re.match(r'^cd \$RP_TASK_SANDBOX/?\s*($|\|\||&&|;)', txt))
+        if not okc and it.vals:
             got = set()
-            for x in vals:
+            for x in it.vals:
                 got |= Lf.of(x)
             okc = 'task/task_sandbox_path' in got
-        rep.check(bool(okc), rid, f, 'the launch script changes to the task '
+        rep.check(okc, rid, f, 'the launch script changes to the task '
                   'sandbox', construct='launch script:cd',
                   message='the launch script changes to `%s`, not to the task '
-                  'sandbox' % txt, loc=f.loc(v),
+                  'sandbox' % txt, loc=f.loc(it.node),
                   history='a task writing ./out.dat: the file lands outside '
                   'of its sandbox')
     launch_cmd(prog, rep, rid)
@@ -1004,25 +1303,44 @@ def r10_3(prog, rep, rid='R10.3'):
 
 
 def placeholders(fmt):
-    """[(index, preceding text)] of the % conversions of a format string"""
+    """text before each % conversion of a format string"""
     out = []
     pos = 0
-    for m in re.finditer(r'%(?:\([^)]*\))?[-#0 +]*\d*(?:\.\d+)?[sdrfi%]', fmt):
-        if m.group(0).endswith('%%') or m.group(0) == '%%':
-            continue
+    for m in FMT_RE.finditer(fmt.replace('%%', '\0\0')):
         out.append(fmt[pos:m.start()])
         pos = m.end()
     return out
 
 
+def bound_from(f, call):
+    """names which hold (an element of) the result of `call`"""
+    out = set()
+    for n in walk(f.node, nested=True):
+        if isinstance(n, ast.Assign) and any(x is call for x in walk(n.value)):
+            for t in n.targets:
+                out |= set(stores_in_target(t))
+        elif isinstance(n, (ast.For, ast.comprehension)) and \
+                any(x is call for x in walk(n.iter)):
+            out |= set(stores_in_target(n.target))
+    return out
+
+
+def follows(its, idx, prefix):
+    """the text directly after item idx starts with `prefix`: either the rest
+    of the item's own text after its last line, or the next item in the same
+    sequence"""
+    it, pa = its[idx]
+    nxt = [x for x, pb in its[idx + 1:] if before(pa, pb) is True]
+    return bool(nxt) and text_of(nxt[0]).startswith(prefix)
+
+
 def launch_cmd(prog, rep, rid):
     f = prog.method(EXE[0], EXE[1], '_get_launch')
     rep.saw(f)
-    P = Pieces(f)
-    g = P.g
+    T, its = script_items(prog, f)
     L = Leaves(f.node, rename=task_rename(f))
+    d = Deps(f.node)
     ps = [p for p in f.params if p != 'self']
-    # the launcher is asked for the command of this task and this exec script
     calls = [c for c in calls_in(f.node) if isinstance(c.func, ast.Attribute)
              and c.func.attr == 'get_launch_cmds']
     if len(calls) != 1:
@@ -1031,7 +1349,7 @@ def launch_cmd(prog, rep, rid):
     c = calls[0]
     a0, a1 = kwarg(c, 'task', 0), kwarg(c, 'exec_path', 1)
     g0 = L.of(a0)
-    g1 = Deps(f.node).expr_depends(a1) if a1 is not None else set()
+    g1 = d.expr_depends(a1) if a1 is not None else set()
     others = set(ps[1:]) - {root_name(c.func.value)}
     rep.check(g0 == {'task'} and bool(others & g1), rid, f,
               'get_launch_cmds is asked for this task and its exec script',
@@ -1041,37 +1359,34 @@ def launch_cmd(prog, rep, rid):
               loc=f.loc(c),
               history='the launch command starts something else than the '
               'exec script of the task')
-    d = Deps(f.node)
-    cn = P.smap.get(id(c))
-    cmd_pieces = []
-    for n, v in P.items:
-        if any(x is c for x in walk(v)):
-            cmd_pieces.append((n, v))
-        elif cn is not None and cn.kind == 'for' and cn.id in n.loops and \
-                set(stores_in_target(cn.ast.target)) & d.reads(v):
-            cmd_pieces.append((n, v))
-        elif cn is not None and cn.kind == 'stmt' and \
-                isinstance(cn.ast, ast.Assign) and \
-                set(stores_in_target(cn.ast.targets[0])) & d.expr_depends(v):
-            cmd_pieces.append((n, v))
-    rep.check(bool(cmd_pieces), rid, f, 'the launcher command is part of the '
+    names = bound_from(f, c)
+    for _ in range(3):
+        for n in walk(f.node, nested=True):
+            if isinstance(n, (ast.For, ast.comprehension)) and \
+                    root_name(n.iter) in names:
+                names |= set(stores_in_target(n.target))
+    cmd_idx = [i for i, (it, pa) in enumerate(its)
+               if any(x is c for x in walk(it.node)) or
+               any(isinstance(x, ast.Name) and x.id in names
+                   for v in ([it.node] if it.kind == 'opaque' else it.vals)
+                   for x in walk(v))]
+    rep.check(bool(cmd_idx), rid, f, 'the launcher command is part of the '
               'launch section', construct='launch:cmd',
               message='the result of get_launch_cmds does not reach the text '
               'returned by %s' % f.qual, loc=f.loc(),
               history='any task: the launch script starts nothing')
-    # redirect
-    red = [(n, v) for n, v in P.items
-           if '1>' in (const_text(v) or '') or '2>' in (const_text(v) or '')]
-    if len(red) != 1 or not isinstance(red[0][1], ast.BinOp):
+    red = [i for i, (it, pa) in enumerate(its)
+           if '1>' in text_of(it) or '2>' in text_of(it)]
+    if len(red) != 1 or its[red[0]][0].kind != 'fmt':
         rep.bad(rid, f, 'launch:redirect', '%s does not redirect stdout '
                 '(1>) and stderr (2>) of the launch command in one formatted '
                 'piece (%d found)' % (f.qual, len(red)), f.loc(),
                 history="stdout='my.out': the output does not land in my.out")
         return
-    rn, rv = red[0]
-    pre = placeholders(rv.left.value)
-    vals = rv.right.elts if isinstance(rv.right, ast.Tuple) else [rv.right]
-    if len(pre) != len(vals):
+    ri = red[0]
+    rit, rpa = its[ri]
+    pre = placeholders(rit.text)
+    if len(pre) != len(rit.vals):
         raise AnalysisError('UNRECOGNISED-IDIOM %s: redirect format' % f.where)
     # (the short form starts with $RP_TASK_SANDBOX, the long one with the
     # sandbox path: the same file)
@@ -1081,31 +1396,32 @@ def launch_cmd(prog, rep, rid):
                if re.search(re.escape(fd) + r'\s*$', t)]
         got = set()
         for i in idx:
-            got |= L.of(vals[i])
+            got |= L.of(rit.vals[i])
         got = {x[:-6] if x.endswith('_short') else x for x in got}
         rep.check(len(idx) == 1 and got == {src}, rid, f,
                   'the launch command redirects %s to %s' % (fd, src),
                   construct='launch:redirect:%s' % fd,
                   message='the launch command redirects `%s` to %s instead of '
-                  '%s' % (fd, sorted(got) or 'nothing', src), loc=f.loc(rv),
+                  '%s' % (fd, sorted(got) or 'nothing', src),
+                  loc=f.loc(rit.node),
                   history="stdout='o.txt', stderr='e.txt': the streams land "
                   'in the wrong file')
-    for n, v in cmd_pieces:
-        rep.check(n.id not in g.reachable(rn.id) and
-                  rn.id in g.reachable(n.id), rid, f,
+    for i in cmd_idx:
+        rep.check(before(its[i][1], rpa) is not False, rid, f,
                   'the redirect closes the launch command', construct=
-                  'launch:cmd<redirect', message='the redirect piece can be '
-                  'added before the launcher command', loc=f.loc(rv),
+                  'launch:cmd<redirect', message='the redirect piece is '
+                  'added before the launcher command', loc=f.loc(rit.node),
                   history='the launch script is not valid shell')
-    nxt = P.after_in_stmt(rn, rv) or [v for _, v in P.next_of(rn)]
-    okx = bool(nxt) and all((const_text(v) or '').startswith('RP_RET=$?')
-                            for v in (nxt[:1] if P.after_in_stmt(rn, rv)
-                                      else nxt))
+    tail = rit.text.rsplit('\n', 1)[-1] if not rit.text.endswith('\n') else ''
+    after = rit.text.split('2>', 1)[-1].split('\n', 1)
+    rest = after[1] if len(after) > 1 else ''
+    okx = rest.startswith('RP_RET=$?') if rest.strip() else \
+        follows(its, ri, 'RP_RET=$?')
     rep.check(okx, rid, f, 'RP_RET=$? directly follows the launch command',
               construct='launch:RP_RET',
-              message='in %s the piece after the launch command is not '
+              message='in %s the text after the launch command is not '
               '`RP_RET=$?`: $? is that of another command by then' % f.qual,
-              loc=f.loc(rv),
+              loc=f.loc(rit.node),
               history='the ranks fail with exit code 1: the launch script '
               'still exits with 0 and the task is DONE')
 
@@ -1113,7 +1429,7 @@ def launch_cmd(prog, rep, rid):
 def exec_cmd(prog, rep, rid):
     f = prog.method(EXE[0], EXE[1], '_get_exec')
     rep.saw(f)
-    P = Pieces(f)
+    T, its = script_items(prog, f)
     L = Leaves(f.node, rename=task_rename(f))
     calls = [c for c in calls_in(f.node) if isinstance(c.func, ast.Attribute)
              and c.func.attr == 'get_exec']
@@ -1121,7 +1437,12 @@ def exec_cmd(prog, rep, rid):
         raise AnalysisError('UNRECOGNISED-IDIOM %s: %d get_exec calls'
                             % (f.where, len(calls)))
     c = calls[0]
-    hit = [(n, v) for n, v in P.items if any(x is c for x in walk(v))]
+    names = bound_from(f, c)
+    hit = [it for it, pa in its
+           if any(x is c for x in walk(it.node)) or
+           any(isinstance(x, ast.Name) and x.id in names
+               for v in ([it.node] if it.kind == 'opaque' else it.vals)
+               for x in walk(v))]
     rep.check(bool(hit) and L.of(kwarg(c, 'task', 0)) == {'task'}, rid, f,
               'the command of launcher.get_exec(task) is part of the exec '
               'section', construct=c,
@@ -1129,43 +1450,106 @@ def exec_cmd(prog, rep, rid):
               'does not reach the text returned by %s' % f.qual, loc=f.loc(c),
               history='any task: the exec script does not start the '
               'executable')
-    waits = [(n, v) for n, v in P.items
-             if re.search(r'(^|\n)wait\b', const_text(v) or '')]
+    waits = [i for i, (it, pa) in enumerate(its)
+             if re.search(r'(^|\n)wait\b', text_of(it))]
     if len(waits) != 1:
         raise AnalysisError('UNRECOGNISED-IDIOM %s: %d `wait` pieces'
                             % (f.where, len(waits)))
-    wn, wv = waits[0]
-    tail = const_text(wv).split('wait', 1)[1].split('\n', 1)
+    wi = waits[0]
+    wit = its[wi][0]
+    tail = re.split(r'(?:^|\n)wait\b', wit.text, 1)[1].split('\n', 1)
     rest = tail[1] if len(tail) > 1 else ''
     if rest.strip():
         okx = rest.lstrip('\n').startswith('RP_RET=$?')
     else:
-        nxt = P.after_in_stmt(wn, wv)
-        nxt = nxt[:1] if nxt else [v for _, v in P.next_of(wn)]
-        okx = bool(nxt) and all((const_text(v) or '').startswith('RP_RET=$?')
-                                for v in nxt)
+        okx = follows(its, wi, 'RP_RET=$?')
     rep.check(okx, rid, f, 'RP_RET=$? directly follows `wait $RP_RANK_PID`',
               construct='exec:RP_RET',
-              message='in %s the piece after `wait` is not `RP_RET=$?`: the '
+              message='in %s the text after `wait` is not `RP_RET=$?`: the '
               'exit code recorded is not that of the executable' % f.qual,
-              loc=f.loc(wv),
+              loc=f.loc(wit.node),
               history='the executable exits with 3: the exec script exits '
               'with 0 and the task is DONE')
 
 
-def rank_case(prog, rep, rid):
-    f = prog.method(EXE[0], EXE[1], '_get_prep_exec')
-    rep.saw(f)
-    g = cfg_of(f)
-    d = Deps(f.node)
-    ps = [p for p in f.params if p != 'self']
-    nr = ps[1]
+def rank_loop(f):
     loops = [n for n in walk(f.node) if isinstance(n, ast.For) and
              isinstance(n.iter, ast.Call) and dotted(n.iter.func) == 'range']
     if len(loops) != 1:
         raise AnalysisError('UNRECOGNISED-IDIOM %s: %d range() loops'
                             % (f.where, len(loops)))
     lp = loops[0]
+    rv = stores_in_target(lp.target)
+    if len(rv) != 1:
+        raise AnalysisError('UNRECOGNISED-IDIOM %s: rank loop target' % f.where)
+    inner = set()
+    for n in walk(lp):
+        if isinstance(n, ast.For) and n is not lp:
+            inner |= set(stores_in_target(n.target))
+    return lp, rv[0], inner
+
+
+def rank_scopes(prog, f):
+    """[(function, node whose body runs once per rank, {names holding the
+    rank index})]: the range(n_ranks) loop of f, and the helpers it hands the
+    rank index to (extract-method form of the loop body)"""
+    lp, rv, _ = rank_loop(f)
+    out = [(f, lp, {rv})]
+    seen = {f.where}
+    for c in calls_in(lp):
+        g = prog.resolve_call(f, c)
+        if g is None or g.cls is None or g.where in seen:
+            continue
+        ps = [p for p in g.params if p not in ('self', 'cls')]
+        idx = set()
+        for i, a in enumerate(c.args):
+            if isinstance(a, ast.Name) and a.id == rv and i < len(ps):
+                idx.add(ps[i])
+        for k in c.keywords:
+            if isinstance(k.value, ast.Name) and k.value.id == rv and \
+                    k.arg in ps:
+                idx.add(k.arg)
+        if idx:
+            seen.add(g.where)
+            out.append((g, g.node, idx))
+    return out
+
+
+def rank_lookups(scope):
+    """[(node, key expr, kind)] of the per-rank lookups / replications in one
+    rank scope: .get(k) / [k] on an element of an iteration, and the dict
+    which wraps a plain entry"""
+    g, body, idx = scope
+    inner = set()
+    for n in walk(body):
+        if isinstance(n, ast.For) and n is not body:
+            inner |= set(stores_in_target(n.target))
+    wrapped = {id(a.value) for a in walk(body) if isinstance(a, ast.Assign)
+               and any(isinstance(t, ast.Name) and t.id in inner
+                       for t in a.targets)}
+    out = []
+    for n in walk(body):
+        if isinstance(n, ast.Call) and isinstance(n.func, ast.Attribute) and \
+                n.func.attr == 'get' and n.args and \
+                root_name(n.func.value) in inner:
+            out.append((n, n.args[0], 'lookup'))
+        elif isinstance(n, ast.Subscript) and isinstance(n.ctx, ast.Load) \
+                and isinstance(n.value, ast.Name) and n.value.id in inner:
+            out.append((n, n.slice, 'lookup'))
+        elif isinstance(n, ast.Dict) and len(n.keys) == 1 and \
+                n.keys[0] is not None and id(n) in wrapped:
+            out.append((n, n.keys[0],
+                        'replication of a plain string entry'))
+    return out
+
+
+def rank_case(prog, rep, rid):
+    f = prog.method(EXE[0], EXE[1], '_get_prep_exec')
+    rep.saw(f)
+    d = Deps(f.node)
+    ps = [p for p in f.params if p != 'self']
+    nr = ps[1]
+    lp, rv, _inner = rank_loop(f)
     a = lp.iter.args
     full = (len(a) == 1 and unparse(a[0]) == nr) or \
         (len(a) in (2, 3) and isinstance(a[0], ast.Constant) and
@@ -1178,60 +1562,37 @@ def rank_case(prog, rep, rid):
               % (short(lp.iter, 40), nr), loc=f.loc(lp),
               history="ranks=2, pre_exec=[{'0': 'a', '1': 'b'}]: one of the "
               'ranks never runs its command')
-    rv = stores_in_target(lp.target)
-    if len(rv) != 1:
-        raise AnalysisError('UNRECOGNISED-IDIOM %s: rank loop target' % f.where)
-    rv = rv[0]
-    P = Pieces(f)
-    labels = [v for n, v in P.items
-              if isinstance(v, ast.BinOp) and
-              re.match(r'^\s*%[ds]\)\s*$', const_text(v) or '')]
+    T, its = script_items(prog, f)
+    labels = [it for it, pa in its if it.kind == 'fmt' and
+              re.match(r'^\s*%[ds]\)\s*$', it.text) and in_loop(pa)]
     if not labels:
         raise AnalysisError('UNRECOGNISED-IDIOM %s: no case label piece'
                             % f.where)
-    for v in labels:
-        rep.check(rv in d.reads(v.right), rid, f,
-                  'the case label is the rank id', construct=v,
+    for it in labels:
+        rep.check(any(rv in d.expr_depends(v) for v in it.vals), rid, f,
+                  'the case label is the rank id', construct=it.node,
                   message='the case label `%s` is not the loop\'s rank id'
-                  % short(v, 50), loc=f.loc(v),
+                  % short(it.node, 50), loc=f.loc(it.node),
                   history='ranks=2: both branches carry the same label')
     # lookups and replication are keyed by the rank id
-    n_keys = 0
-    inner = set()
-    for n in walk(lp):
-        if isinstance(n, ast.For) and n is not lp:
-            inner |= set(stores_in_target(n.target))
-    wrapped = {id(a.value) for a in walk(lp) if isinstance(a, ast.Assign)
-               and any(isinstance(t, ast.Name) and t.id in inner
-                       for t in a.targets)}
-    for n in walk(lp):
-        key = None
-        if isinstance(n, ast.Call) and isinstance(n.func, ast.Attribute) and \
-                n.func.attr == 'get' and n.args and \
-                root_name(n.func.value) in inner:
-            key = n.args[0]
-            kind = 'lookup'
-        elif isinstance(n, ast.Subscript) and isinstance(n.ctx, ast.Load) \
-                and isinstance(n.value, ast.Name) and n.value.id in inner:
-            key = n.slice
-            kind = 'lookup'
-        elif isinstance(n, ast.Dict) and len(n.keys) == 1 and \
-                n.keys[0] is not None and id(n) in wrapped:
-            key = n.keys[0]
-            kind = 'replication of a plain string entry'
-        if key is None:
-            continue
-        n_keys += 1
-        rep.check(rv in d.expr_depends(key), rid, f,
-                  'per-rank %s is keyed by the rank id' % kind, construct=n,
-                  message='`%s`: the %s inside the rank loop does not use the '
-                  'rank id: commands run on the wrong ranks'
-                  % (short(n, 50), kind), loc=f.loc(n),
-                  history="ranks=2, pre_exec=['x', {'1': 'y'}]: `x` runs on "
-                  'one rank only (or `y` on both)')
-    if n_keys < 2:
-        raise AnalysisError('UNRECOGNISED-IDIOM %s: per-rank lookup / '
-                            'replication not found' % f.where)
+    n_look = 0
+    for scope in rank_scopes(prog, f):
+        g, body, idx = scope
+        dg = d if g is f else Deps(g.node)
+        for n, key, kind in rank_lookups(scope):
+            if kind == 'lookup':
+                n_look += 1
+            rep.check(bool(idx & dg.expr_depends(key)), rid, g,
+                      'per-rank %s is keyed by the rank id' % kind,
+                      construct=n,
+                      message='`%s`: the %s inside the rank loop does not use '
+                      'the rank id: commands run on the wrong ranks'
+                      % (short(n, 50), kind), loc=g.loc(n),
+                      history="ranks=2, pre_exec=['x', {'1': 'y'}]: `x` runs "
+                      'on one rank only (or `y` on both)')
+    if not n_look:
+        raise AnalysisError('UNRECOGNISED-IDIOM %s: per-rank lookup not found '
+                            'inside the rank loop' % f.where)
 
 
 def std_names(prog, rep, rid):
@@ -1242,20 +1603,30 @@ def std_names(prog, rep, rid):
     for a in walk(f.node):
         if not isinstance(a, ast.Assign):
             continue
+        pairs = []
         for t in a.targets:
+            if isinstance(t, ast.Subscript):
+                pairs.append((t, a.value))
+            elif isinstance(t, (ast.Tuple, ast.List)):
+                if isinstance(a.value, (ast.Tuple, ast.List)) and \
+                        len(a.value.elts) == len(t.elts):
+                    pairs += list(zip(t.elts, a.value.elts))
+                else:
+                    pairs += [(x, a.value) for x in t.elts]
+        for t, v in pairs:
             k = const_key(t) if isinstance(t, ast.Subscript) else None
             if k not in ('stdout_file_short', 'stderr_file_short',
                          'stdout_file', 'stderr_file'):
                 continue
             n += 1
             which = k[:6]
-            got = L.of(a.value)
+            got = L.of(v)
             req = 'task/description/%s' % which
             other = 'task/description/%s' % ('stderr' if which == 'stdout'
                                              else 'stdout')
             rep.check(req in got and other not in got, rid, f,
                       "task['%s'] derives from td['%s']" % (k, which),
-                      construct=a,
+                      construct='%s:%s' % (k, which),
                       message="task['%s'] is computed from %s, not from the "
                       "described %s name" % (k, sorted(got), which),
                       loc=f.loc(a),
@@ -1273,33 +1644,37 @@ def std_names(prog, rep, rid):
 def task_env_order(prog, rep, rid):
     f = prog.method(EXE[0], EXE[1], '_get_task_env')
     rep.saw(f)
-    P = Pieces(f)
-    g = P.g
+    T, its = script_items(prog, f)
     L = Leaves(f.node, rename=task_rename(f))
-    named = [(n, v) for n, v in P.items
+
+    def leaves(it):
+        out = set()
+        for v in ([it.node] if it.kind in ('opaque', 'call') else it.vals):
+            out |= L.of(v)
+        return out
+    named = [(it, pa) for it, pa in its
              if any(isinstance(c.func, ast.Attribute) and
                     c.func.attr == 'get_task_named_env'
-                    for c in calls_in(v)) or
-             'task/description/named_env' in L.of(v)]
-    exports = [(n, v) for n, v in P.items
-               if 'task/description/environment' in L.of(v)]
+                    for c in calls_in(it.node)) or
+             'task/description/named_env' in leaves(it)]
+    exports = [(it, pa) for it, pa in its
+               if 'task/description/environment' in leaves(it)]
     if not named or not exports:
         rep.ok(rid, f, 'task env: named environment and environment exports '
                'are not both generated here (nothing to order)', f.loc())
         return
-    okay = all(na.id not in g.reachable(nb.id) and
-               nb.id in g.reachable(na.id)
-               for na, _ in named for nb, _ in exports if na is not nb)
+    okay = all(before(pa, pb) is not False
+               for _, pa in named for _, pb in exports)
     rep.check(okay, rid, f,
               "task env: the named environment is sourced before the "
               "td['environment'] exports",
               construct='task env:named env<exports',
-              message="in %s the `export K=V` lines of td['environment'] can "
-              'be emitted before the line which sources the named '
+              message="in %s the `export K=V` lines of td['environment'] are "
+              'emitted before the line which sources the named '
               'environment: the activation script unsets / overrides '
               'variables, so the described environment does not hold when '
               'the executable starts' % f.qual,
-              loc=f.loc(named[0][1]),
+              loc=f.loc(named[0][0].node),
               history="named_env='ve1' whose activation sets PATH and unsets "
               "PYTHONPATH, environment={'PYTHONPATH': '/x', 'PATH': '/y'}: the "
               'task runs with the values of the activation script')
@@ -1388,35 +1763,14 @@ def shapes_agree(a, b):
 
 def consumer_keys(prog):
     """(function, lookup shape, [(node, shape)] of the replication dicts) of
-    _get_prep_exec"""
+    _get_prep_exec (and the helpers which run once per rank)"""
     f = prog.method(EXE[0], EXE[1], '_get_prep_exec')
-    loops = [n for n in walk(f.node) if isinstance(n, ast.For) and
-             isinstance(n.iter, ast.Call) and dotted(n.iter.func) == 'range']
-    if len(loops) != 1:
-        raise AnalysisError('UNRECOGNISED-IDIOM %s: %d range() loops'
-                            % (f.where, len(loops)))
-    lp = loops[0]
-    idx = index_vars(f.node)
-    inner = set()
-    for n in walk(lp):
-        if isinstance(n, ast.For) and n is not lp:
-            inner |= set(stores_in_target(n.target))
-    wrapped = {id(a.value) for a in walk(lp) if isinstance(a, ast.Assign)
-               and any(isinstance(t, ast.Name) and t.id in inner
-                       for t in a.targets)}
     lookups, repl = [], []
-    for n in walk(lp):
-        if isinstance(n, ast.Call) and isinstance(n.func, ast.Attribute) and \
-                n.func.attr == 'get' and n.args and \
-                root_name(n.func.value) in inner:
-            lookups.append((n, key_shape(f.node, n.args[0], idx)))
-        elif isinstance(n, ast.Subscript) and isinstance(n.ctx, ast.Load) \
-                and isinstance(n.value, ast.Name) and n.value.id in inner:
-            lookups.append((n, key_shape(f.node, n.slice, idx)))
-        elif isinstance(n, ast.Dict) and id(n) in wrapped:
-            for k in n.keys:
-                repl.append((n, key_shape(f.node, k, idx)
-                             if k is not None else None))
+    for scope in rank_scopes(prog, f):
+        g, body, idx = scope
+        for n, key, kind in rank_lookups(scope):
+            sh = key_shape(g.node, key, idx | index_vars(g.node))
+            (lookups if kind == 'lookup' else repl).append((n, sh))
     shapes = {sh for _, sh in lookups}
     if not lookups or None in shapes or len(shapes) != 1:
         raise AnalysisError('UNRECOGNISED-IDIOM %s: per-rank lookup key not '
@@ -1466,6 +1820,8 @@ def r10_5(prog, rep, rid='R10.5'):
              'from the rank index)', minimum=2)
     fc, want, repl = consumer_keys(prog)
     rep.saw(fc)
+    rep.ok(rid, fc, '_get_prep_exec looks per-rank entries up with one key '
+           'form: %s of %s' % want, fc.loc())
     for n, sh in repl:
         if sh is None:
             raise AnalysisError('UNRECOGNISED-IDIOM %s: key of `%s`'
@@ -1754,3 +2110,59 @@ SILENT += [
     dict(name='environment block tests the dict with .get()', edits=[
         (_E, "        if td['environment']:\n            ret += '\\n# task env settings\\n'", "        if td.get('environment'):\n            ret += '\\n# task env settings\\n'")]),
 ]
+
+
+# ------------------------------------------------------------------------------
+# behaviour-preserving refactorings of the corpus (/verif/seeded/C10-r*):
+# each hunk of the patch becomes one text edit of a SILENT variant
+#
+def edits_from_patch(path):
+    import os
+    if not os.path.exists(path):
+        return None
+    edits, rel, old, new = [], None, [], []
+
+    def flush():
+        if rel and (old or new) and old != new:
+            edits.append((rel, ''.join(old), ''.join(new)))
+    with open(path, encoding='utf-8') as fh:
+        for line in fh:
+            if line.startswith('diff --git') or line.startswith('index ') or \
+                    line.startswith('--- '):
+                continue
+            if line.startswith('+++ '):
+                flush()
+                old, new = [], []
+                name = line[4:].strip()
+                name = name[2:] if name.startswith('b/') else name
+                pre = 'src/radical/pilot/'
+                rel = name[len(pre):] if name.startswith(pre) else None
+                continue
+            if line.startswith('@@'):
+                flush()
+                old, new = [], []
+            elif line.startswith('+'):
+                new.append(line[1:])
+            elif line.startswith('-'):
+                old.append(line[1:])
+            elif line.startswith(' ') or line == '\n':
+                old.append(line[1:] if line != '\n' else line)
+                new.append(line[1:] if line != '\n' else line)
+    flush()
+    return edits
+
+
+def _corpus():
+    import os
+    here = os.path.dirname(os.path.dirname(os.path.dirname(
+        os.path.abspath(__file__))))
+    out = []
+    for n in range(1, 10):
+        name = 'C10-r%d' % n
+        ed = edits_from_patch(os.path.join(here, 'seeded', name, 'patch.diff'))
+        if ed:
+            out.append(dict(name='corpus refactoring %s' % name, edits=ed))
+    return out
+
+
+SILENT += _corpus()
